@@ -1,8 +1,82 @@
-// Further generators (filled in per property).
+// Generators for graph-shaped cases (C09-C12, C14, C19) and files (C13-C15).
 #include "gens.hpp"
+#include <cstdio>
+
+using namespace rc;
+
 namespace verif {
+
+Gen<int> uni(int lo, int hi);
+Gen<int> wel(std::initializer_list<std::pair<std::size_t, int>> pairs);
+
+namespace {
+std::string S(long long v) { return std::to_string(v); }
+
+Op eOp(int i, int j, int x) {
+    Op o;
+    o.kind = "e";
+    o.a = {S(i), S(j), S(x)};
+    return o;
+}
+} // namespace
+
+// cfg: prop, classes, nmax (default 9), pads=0|1, extra="k v;k v", dense=0..100 (percentage of dense cases), xmax
+Gen<Case> makeGraphGen(const Cfg &cfg) {
+    std::vector<std::string> classes = splitList(cfgGet(cfg, "classes", "DS:none"), ';');
+    std::string prop = cfgGet(cfg, "prop", "C09");
+    int nmax = (int)cfgInt(cfg, "nmax", 9);
+    int nmin = (int)cfgInt(cfg, "nmin", 0);
+    bool pads = cfgInt(cfg, "pads", 0) != 0;
+    int xmax = (int)cfgInt(cfg, "xmax", 12);
+    std::string extra = cfgGet(cfg, "extra", "");
+    int subsets = (int)cfgInt(cfg, "subsets", 0);
+    return gen::exec([=]() {
+        std::string cl = *gen::resize(kNominalSize, gen::elementOf(classes));
+        auto parts = splitList(cl, ':');
+        Case c;
+        c.set("prop", prop);
+        c.set("class", parts[0]);
+        c.set("label", parts.size() > 1 ? parts[1] : "none");
+        for (auto &kv : splitList(extra, ';')) {
+            auto sp = kv.find(' ');
+            if (sp != std::string::npos)
+                c.set(kv.substr(0, sp), kv.substr(sp + 1));
+        }
+        int n = *gen::resize(kNominalSize, gen::weightedOneOf<int>({{1, gen::just(nmin)}, {6, uni(nmin, std::min(nmax, 5) + 1)}, {4, uni(nmin, nmax + 1)}}));
+        c.set("n", S(n));
+        if (pads && *uni(0, 4) == 0) {
+            c.set("pad_front", S(*uni(0, 3)));
+            c.set("pad_back", S(*uni(0, 3)));
+        }
+        // edges: raw endpoints reduced modulo n by the executor; small values dominate so that
+        // repeats, reciprocal pairs and self-loops all occur
+        int nn = std::max(n, 1);
+        auto eg = gen::map(gen::tuple(uni(0, nn), uni(0, nn), uni(0, xmax), wel({{5, 0}, {1, 1}, {1, 2}})), [](const std::tuple<int, int, int, int> &t) {
+            int i = std::get<0>(t), j = std::get<1>(t);
+            if (std::get<3>(t) == 1)
+                j = i; // self-loop
+            return eOp(i, j, std::get<2>(t));
+        });
+        double density = *gen::resize(kNominalSize, gen::element(0.15, 0.4, 1.0, 2.5));
+        c.ops = *gen::scale(density * nn * nn / 40.0, gen::container<std::vector<Op>>(eg));
+        for (int k = 0; k < subsets; ++k) {
+            Op o;
+            o.kind = "s";
+            o.a = {S(*uni(0, 1 << std::min(nn, 20)))};
+            c.ops.push_back(o);
+        }
+        return c;
+    });
+}
+
+rc::Gen<Case> makeFileGen(const std::string &name, const Cfg &cfg, bool &found);
+
 rc::Gen<Case> makeExtraGen(const std::string &name, const Cfg &cfg, bool &found) {
+    found = true;
+    if (name == "graph")
+        return makeGraphGen(cfg);
     found = false;
     return rc::gen::just(Case());
 }
+
 } // namespace verif
